@@ -1,7 +1,211 @@
+//! C12 — a sketch is a pure function of parameters, hasher and input (instances / threads / processes)
 use crate::common::*;
+use crate::gen::*;
+use crate::sk::*;
+use fnv::FnvHasher;
+use probminhash::probminhasher::probordminhash2::ProbOrdMinHash2;
+use rand::Rng as _;
+use serde_json::{json, Value};
+use std::collections::BTreeMap;
+use std::sync::{Arc, Barrier};
+use std::time::Instant;
+use wyhash::WyHash;
+
+/// the battery: (case name, digest of the bit pattern of the result). Everything is derived from `seed`;
+/// each call constructs fresh sketcher instances.
+pub fn battery(seed: u64, size: usize) -> Vec<(String, u64)> {
+    let mut out = Vec::new();
+    let mut rng = rng_from(mix(&[seed, 0xC12]));
+    // ---- ProbMinHash variants, all entry points (HashMap with RandomState included)
+    for (ci, v) in ALL_PV.iter().enumerate() {
+        for rep in 0..size {
+            let n = [1usize, 5, 40, 200][rep % 4];
+            let m = [v.min_m().max(2), 16, 100, 512][(rep + ci) % 4];
+            let ids = fresh_ids(&mut rng, n, 0);
+            let w: Vec<(u64, f64)> = ids.iter().map(|&d| (d, 10f64.powf(rng.random_range(-3.0..3.0)))).collect();
+            let entries: Vec<Entry> = match v {
+                Pv::P2 => vec![Entry::Item, Entry::Wset, Entry::HashMapStd],
+                Pv::P3 => vec![Entry::Item, Entry::IdxMap, Entry::HashMapStd],
+                _ => vec![Entry::IdxMap, Entry::HashMapStd, Entry::Batches(3)],
+            };
+            for e in entries {
+                let hs = if *v != Pv::P3aSha && rep % 3 == 2 { Hs::NoHash } else { Hs::Fnv };
+                let (sig, reg) = pmh(*v, hs, m, &w, e, 0);
+                out.push((format!("{}/{:?}/{:?}/n={}/m={}/#{}", v.name(), hs, e, n, m, rep), mix(&[digest_u64s(&sig), digest_f64s(&reg)])));
+            }
+        }
+    }
+    // ---- ProbOrdMinHash2
+    for rep in 0..size * 2 {
+        let l = [1usize, 2, 3, 5][rep % 4];
+        let m = [1u32, 8, 64, 256][(rep / 2) % 4];
+        let len = l + [0usize, 5, 30, 100][rep % 4];
+        let alphabet = fresh_ids(&mut rng, (len / 2).max(1), 0);
+        let seq: Vec<u64> = (0..len).map(|_| alphabet[rng.random_range(0..alphabet.len())]).collect();
+        let s1 = ProbOrdMinHash2::<FnvHasher>::new(m, l).hash_set(&seq);
+        out.push((format!("probordminhash2/Fnv/m={}/l={}/len={}/#{}", m, l, len, rep), digest_u64s(&s1)));
+        let s2 = ProbOrdMinHash2::<WyHash>::new(m, l).hash_set(&seq);
+        out.push((format!("probordminhash2/WyHash/m={}/l={}/len={}/#{}", m, l, len, rep), digest_u64s(&s2)));
+        // a reused instance: second call on the same instance
+        let mut inst = ProbOrdMinHash2::<FnvHasher>::new(m, l);
+        let _ = inst.hash_set(&seq[..l.max(len / 2)]);
+        let s3 = inst.hash_set(&seq);
+        out.push((format!("probordminhash2/Fnv/reused/m={}/l={}/len={}/#{}", m, l, len, rep), digest_u64s(&s3)));
+    }
+    // ---- unweighted sketchers, all views
+    let kinds = crate::c04::kinds();
+    for (ki, k) in kinds.iter().enumerate() {
+        for rep in 0..size {
+            let n = [1usize, 7, 300, 3000][(rep + ki) % 4];
+            let mut m = [1usize, 10, 128, 1000][(rep + 2 * ki) % 4];
+            if matches!(k, UKind::RevF32 | UKind::RevF64) {
+                m = m.min(300);
+            }
+            let ids = fresh_ids(&mut rng, n, 0);
+            let mut s = make_usk(*k, m);
+            if rep % 2 == 0 {
+                s.sketch_slice(&ids);
+            } else {
+                for d in &ids {
+                    s.sketch(*d);
+                }
+                s.finish();
+            }
+            out.push((format!("{}/n={}/m={}/#{}", k.name(), n, m, rep), digest_u64s(&s.bits())));
+        }
+    }
+    out
+}
+
+fn battery_size(tier: Tier) -> usize {
+    tier.pick(12, 60)
+}
 
 pub fn run(rep: &mut Report) {
-    let _ = rep;
-    eprintln!("C12 not implemented yet");
+    quiet_panics();
+    rep.rule = "a battery of (sketcher type, parameters, entry point, input) cases covering every public sketcher (4 ProbMinHash variants x entry points incl. std HashMap, ProbOrdMinHash2 with 2 hashers incl. reused instance, SuperMinHash f32/f64/NoHash, SuperMinHash2 u64/u32, SetSketch 6 tuples, Opt/RevOpt densification all views) is digested (bit patterns) by: (i) two passes in the main thread, (ii) 16 threads released by a barrier, each constructing its own instances, (iii) child processes (different ASLR, RandomState keys, thread_rng state). All digests of a case must agree. Distinct = battery cases; non-trivial = all (each involves randomised hashing of >= 1 item)".into();
+    let seed = subseed(rep.seed, "C12/battery", &[]);
+    let size = battery_size(rep.tier);
+    let reference = battery(seed, size);
+    rep.evaluations += reference.len() as u64;
+    for (name, d) in &reference {
+        rep.distinct.insert(mix(&[fnv64(name.as_bytes()), *d]));
+    }
+    rep.sample(json!({"case": reference[0].0, "digest": format!("{:#x}", reference[0].1)}));
+    rep.sample(json!({"case": reference[reference.len() / 2].0, "digest": format!("{:#x}", reference[reference.len() / 2].1)}));
+    let mut mismatches: BTreeMap<String, Vec<String>> = BTreeMap::new();
+    let mut compare = |who: &str, other: &[(String, u64)], mism: &mut BTreeMap<String, Vec<String>>| {
+        if other.len() != reference.len() {
+            mism.entry("battery-length".into()).or_default().push(format!("{} produced {} cases instead of {}", who, other.len(), reference.len()));
+            return;
+        }
+        for ((n1, d1), (n2, d2)) in reference.iter().zip(other.iter()) {
+            if n1 != n2 || d1 != d2 {
+                mism.entry(n1.clone()).or_default().push(format!("{}: {:#x} vs reference {:#x}", who, d2, d1));
+            }
+        }
+    };
+    // (i) second pass, same thread, new instances
+    if rep.want("instances") {
+        let again = battery(seed, size);
+        rep.evaluations += again.len() as u64;
+        compare("second instance, same thread", &again, &mut mismatches);
+        rep.count("instances.cases_compared", again.len() as u64);
+    }
+    // (ii) concurrent threads
+    if rep.want("threads") {
+        let nthreads = 16;
+        let rounds = rep.tier.pick(2, 8);
+        let mut overlaps = 0u64;
+        let mut orders: std::collections::BTreeSet<Vec<usize>> = Default::default();
+        for round in 0..rounds {
+            let barrier = Arc::new(Barrier::new(nthreads));
+            let t0 = Instant::now();
+            let results: Vec<(Vec<(String, u64)>, f64, f64)> = std::thread::scope(|s| {
+                let hs: Vec<_> = (0..nthreads)
+                    .map(|_| {
+                        let b = barrier.clone();
+                        s.spawn(move || {
+                            b.wait();
+                            let st = t0.elapsed().as_secs_f64();
+                            let r = battery(seed, size);
+                            (r, st, t0.elapsed().as_secs_f64())
+                        })
+                    })
+                    .collect();
+                hs.into_iter().map(|h| h.join().expect("battery thread panicked")).collect()
+            });
+            let mut order: Vec<usize> = (0..nthreads).collect();
+            order.sort_by(|&a, &b| results[a].2.partial_cmp(&results[b].2).unwrap());
+            orders.insert(order);
+            for i in 0..nthreads {
+                for j in 0..i {
+                    if results[i].1 < results[j].2 && results[j].1 < results[i].2 {
+                        overlaps += 1;
+                    }
+                }
+                rep.evaluations += results[i].0.len() as u64;
+                compare(&format!("thread {} of round {}", i, round), &results[i].0, &mut mismatches);
+            }
+        }
+        rep.count("threads.overlapping_task_pairs_observed", overlaps);
+        rep.count("threads.distinct_completion_orders_observed", orders.len() as u64);
+        rep.count("threads.batteries_run", (nthreads * rounds) as u64);
+    }
+    // (iii) child processes
+    if rep.want("processes") {
+        let nproc = rep.tier.pick(4, 10);
+        let exe = std::env::current_exe().unwrap();
+        let mut proc_info = Vec::new();
+        let children: Vec<_> = (0..nproc)
+            .map(|_| std::process::Command::new(&exe).args(["child", "c12", &seed.to_string(), &size.to_string()]).env("RUST_BACKTRACE", "0").stdout(std::process::Stdio::piped()).stderr(std::process::Stdio::null()).spawn())
+            .collect();
+        for (pi, c) in children.into_iter().enumerate() {
+            match c.and_then(|c| c.wait_with_output()) {
+                Ok(o) if o.status.success() => {
+                    let text = String::from_utf8_lossy(&o.stdout);
+                    let mut res = Vec::new();
+                    for line in text.lines() {
+                        if let Some(rest) = line.strip_prefix("CASE ") {
+                            if let Some((d, name)) = rest.split_once(' ') {
+                                res.push((name.to_string(), u64::from_str_radix(d, 16).unwrap_or(0)));
+                            }
+                        } else if let Some(rest) = line.strip_prefix("PROCINFO ") {
+                            proc_info.push(rest.to_string());
+                        }
+                    }
+                    rep.evaluations += res.len() as u64;
+                    compare(&format!("child process {}", pi), &res, &mut mismatches);
+                }
+                Ok(o) => rep.inconclusive.push(format!("child process {} exited with {:?}", pi, o.status.code())),
+                Err(e) => rep.inconclusive.push(format!("child process {} could not be run: {}", pi, e)),
+            }
+        }
+        let distinct_info: std::collections::BTreeSet<&String> = proc_info.iter().collect();
+        rep.count("processes.children", nproc as u64);
+        rep.count("processes.distinct_layout_or_randomstate_fingerprints", distinct_info.len() as u64);
+        rep.extra.insert("process_fingerprints".into(), json!(proc_info.iter().take(4).collect::<Vec<_>>()));
+    }
+    // verdict: group by sketcher family (first path component) for the finding key
+    for (case, what) in mismatches.iter() {
+        let fam = case.split('/').next().unwrap_or("?");
+        rep.violation(&format!("C12/{}", fam), "battery", format!("case {} is not reproducible: {}", case, what.iter().take(3).cloned().collect::<Vec<_>>().join("; ")), json!({"case": case}));
+    }
+    rep.count("cases_in_battery", reference.len() as u64);
+    rep.count("cases_with_mismatch", mismatches.len() as u64);
+    rep.assumptions.push("child processes get a fresh address space layout, RandomState keys and thread-local generator state from the OS (fingerprints recorded)".into());
 }
-pub fn child(_a: &[String]) -> i32 { 2 }
+
+pub fn child(a: &[String]) -> i32 {
+    let seed: u64 = a.first().and_then(|s| s.parse().ok()).unwrap_or(1);
+    let size: usize = a.get(1).and_then(|s| s.parse().ok()).unwrap_or(3);
+    let local = 0u8;
+    let heap = Box::new(0u8);
+    use std::hash::BuildHasher;
+    let rs = std::collections::hash_map::RandomState::new().hash_one(42u64);
+    println!("PROCINFO stack={:p} heap={:p} randomstate_hash_of_42={:#x} pid={}", &local, &*heap, rs, std::process::id());
+    for (name, d) in battery(seed, size) {
+        println!("CASE {:x} {}", d, name);
+    }
+    0
+}
